@@ -45,6 +45,27 @@ def region_signature(body, eb, region_blocks, drop):
     return sorted(sig)
 
 
+def initial_state(ctx, p, RULE="C07-R2"):
+    """a fresh excitation is unvoiced and at rest: the first frame's `start()` then takes the
+    no-glide branch and sets period and counter from the frame itself (a non-zero initial period
+    makes the first voiced frame glide from a pitch that never was)"""
+    en = p.body(EX + "new")
+    if en is None:
+        return
+    e_ = ExprBuilder(en).local(0)
+    vals = dict(zip(e_[3], e_[2])) if e_[0] == "agg" and e_[3] else {}
+    for f in ("pitch_of_curr_point", "pitch_counter", "pitch_inc_per_point"):
+        v = vals.get(f)
+        try:
+            zero = v is not None and v[0] == "c" and float(v[1]) == 0.0
+        except (TypeError, ValueError):
+            zero = False
+        if zero:
+            ctx.ok(RULE, "Excitation::new: %s = 0" % f, en.loc())
+        else:
+            ctx.fail(RULE, en.path, "initial " + f, "a fresh excitation starts with %s = %s, expected 0 (unvoiced, at rest): the first voiced frame would glide from that value" % (f, show(v) if v is not None else None), en.loc())
+
+
 def ring_buffer_size(ctx, p, RULE="C07-R3"):
     # the branch of get() is selected by `ring_buffer.len() > 0` (R3): the buffer has exactly as many
     # taps as the voice's low-pass stream - nlpf = 0 gives an empty buffer and the plain branch
@@ -425,6 +446,7 @@ def run(ctx):
             ctx.fail("C07-R4", rb.path, "offset", "get_mut_with_offset returns %s" % r, rb.loc())
 
     ring_buffer_size(ctx, p)
+    initial_state(ctx, p)
 
     # ---- R5
     if vs is not None:
